@@ -3,6 +3,8 @@
 //@assume the WAL sequence counter and the statistics counters never wrap
 //@trusted WalGuard::append / append_batch grant `logged(..)` only on Ok (link to bytes: units wal_writer / wal_reader)
 //@trusted digest_embedding is a function of the exact f32 bit patterns (uninterpreted spec_digest)
+//@assume normalisation is idempotent (stub normalize_in_place_if_needed: preflight_ok(input) && Ok ==> output == input, bit for bit): bounded evidence = Kani harness `normalize_is_idempotent` of units/preflight.kani (dimension 3, every f32 bit pattern, both copies of the function, sum_squares_f32 an arbitrary pure function); general argument: the second call sees the sum of squares the first call accepted
+//@assume single-metric deployment: `preflight_ok(v)` is not indexed by the DistanceMetric, so the idempotence clause is sound only if every normalize_in_place_if_needed call of one process uses the same metric (TieredEngine::build_internal hands config.hnsw_distance to the HnswBackend constructors, recover refuses a snapshot of another metric, the index never changes its metric; none of this is verified)
 use anyhow::{Result, Context};
 //@include string_axioms.rs
 
@@ -201,7 +203,9 @@ impl HnswVectorIndex {
 pub uninterp spec fn preflight_ok(v: Seq<f32>) -> bool;
 #[verifier::external_body]
 fn normalize_in_place_if_needed(distance: DistanceMetric, embedding: &mut Vec<f32>) -> (r: Result<()>)
-    ensures final(embedding)@.len() == old(embedding)@.len(), r.is_ok() ==> preflight_ok(final(embedding)@)
+    ensures final(embedding)@.len() == old(embedding)@.len(), r.is_ok() ==> preflight_ok(final(embedding)@),
+        // idempotence: a vector that already passed the pre-flight (same metric) is accepted again and no bit of it changes
+        preflight_ok(old(embedding)@) && r.is_ok() ==> final(embedding)@ == old(embedding)@,
 { unimplemented!() }
 
 //@item engine/src/hnsw_backend.rs struct HnswBackend
